@@ -129,7 +129,7 @@ func (s *Subscriber) run(ctx context.Context) error {
 			nextInterval := predictor.update(progress)
 			nextPollTime := pollTime.Add(nextInterval)
 			delay := max(s.clock.Until(nextPollTime), 0)
-			delay += max(offset, delay/2) // Offset the delay by at most half the predicted interval.
+			delay += min(offset, delay/2) // Offset the delay by at most half the predicted interval.
 			log.Debugf("predicted interval is %s (waiting %s)", nextInterval, delay)
 			timer.Reset(delay)
 
